@@ -16,35 +16,7 @@ use std::fmt::Debug;
 #[global_allocator]
 static A: Counting = Counting;
 
-/// position-coded sample: distinct for distinct i < 200
-trait Mk: Sample + PartialEq + Debug + 'static {
-    const NAME: &'static str;
-    fn mk(i: usize) -> Self;
-}
-macro_rules! mk {
-    ($T:ty, $name:expr, |$i:ident| $e:expr) => {
-        impl Mk for $T {
-            const NAME: &'static str = $name;
-            fn mk($i: usize) -> Self {
-                $e
-            }
-        }
-    };
-}
-mk!(i8, "i8", |i| (i as i32 - 100) as i8);
-mk!(u8, "u8", |i| i as u8);
-mk!(i16, "i16", |i| (i as i32 * 7 - 300) as i16);
-mk!(u16, "u16", |i| (i * 11) as u16);
-mk!(I24, "I24", |i| I24::new(i as i32 * 1001 - 5000).unwrap());
-mk!(U24, "U24", |i| U24::new(i as i32 * 1003).unwrap());
-mk!(i32, "i32", |i| i as i32 * 100_003 - 77);
-mk!(u32, "u32", |i| i as u32 * 100_019);
-mk!(I48, "I48", |i| I48::new(i as i64 * 1_000_000_007 - 9).unwrap());
-mk!(U48, "U48", |i| U48::new(i as i64 * 1_000_000_009).unwrap());
-mk!(i64, "i64", |i| i as i64 * 1_000_000_000_039 - 3);
-mk!(u64, "u64", |i| i as u64 * 1_000_000_000_061);
-mk!(f32, "f32", |i| i as f32 * 0.125 - 3.0);
-mk!(f64, "f64", |i| i as f64 * 0.0625 - 2.0);
+use wide::Mk;
 
 type Bad = Option<(String, String)>;
 fn bad(key: &str, msg: String) -> Bad {
